@@ -33,9 +33,10 @@ end GoUefi.C11
 /-! ## the read path: `ParseEfivars` (both copies) as the source has it now
 
 `ParseEfivars(f, size)` is what `ReadEfivarsFile` hands the opened file and its `Stat` size to.  The
-Go code allocates `size - 4` bytes: for `size < 4` that is `make` with a negative length, a run-time
-panic, which the translation (lists, `Int.toNat`) does not show — the theorems below therefore carry
-the hypothesis `4 ≤ size`, and the harness covers files shorter than four bytes on the real code. -/
+Go code allocates `size - 4` bytes: for `size < 4` that used to be `make` with a negative length, a
+run-time panic (F33) which a translation to lists and `Int.toNat` cannot show; the source now rejects
+such a size first (`C11g_parse_small`), so `4 ≤ size` holds where the allocation is reached and the
+three theorems together cover every reader content and every size. -/
 namespace GoUefi.C11
 open GoUefi GoUefi.Gen GoUefi.GenCodec
 
@@ -46,8 +47,11 @@ theorem C11g_parse_ok (f : List UInt8) (size : Int) (hs : 4 ≤ size) (hf : size
     attributes.ParseEfivars f size =
       (f.drop size.toNat, decLE32 (f.take 4), (f.drop 4).take (size.toNat - 4), none) := by
   have h4 : 4 ≤ f.length := by omega
+  have hd : decide (size < attributes.SizeofAttributes) = false := by
+    apply decide_eq_false; show ¬ size < 4; omega
   unfold attributes.ParseEfivars
-  simp only [attributes.SizeofAttributes, List.length_replicate]
+  rw [hd]
+  simp only [Bool.false_eq_true, if_false, attributes.SizeofAttributes, List.length_replicate]
   rw [readBytes_ge h4 (by decide)]
   simp only [Option.isNone_none, Option.isSome_none, if_true, Bool.false_eq_true, if_false]
   by_cases h0 : (size - 4).toNat = 0
@@ -62,8 +66,11 @@ theorem C11g_parse_ok (f : List UInt8) (size : Int) (hs : 4 ≤ size) (hf : size
 /-- A file shorter than `size`: an error, attributes 0 and no value — never a short value. -/
 theorem C11g_parse_short (f : List UInt8) (size : Int) (hs : 4 ≤ size) (hf : f.length < size.toNat) :
     ∃ e, attributes.ParseEfivars f size = ([], 0, [], some e) := by
+  have hd : decide (size < attributes.SizeofAttributes) = false := by
+    apply decide_eq_false; show ¬ size < 4; omega
   unfold attributes.ParseEfivars
-  simp only [attributes.SizeofAttributes, List.length_replicate]
+  rw [hd]
+  simp only [Bool.false_eq_true, if_false, attributes.SizeofAttributes, List.length_replicate]
   by_cases h4 : f.length < 4
   · obtain ⟨s, hr⟩ := readBytes_short (n := 4) h4
     rw [hr]
@@ -74,6 +81,16 @@ theorem C11g_parse_short (f : List UInt8) (size : Int) (hs : 4 ≤ size) (hf : f
     obtain ⟨s, hr⟩ := readBytes_short hlt
     rw [hr]
     exact ⟨s, by simp⟩
+
+/-- A declared size below the four attribute bytes: an error, and nothing is read (F33: this used to
+    be a negative-length allocation). -/
+theorem C11g_parse_small (f : List UInt8) (size : Int) (hs : size < 4) :
+    ∃ e, attributes.ParseEfivars f size = (f, 0, [], some e) := by
+  have hd : decide (size < attributes.SizeofAttributes) = true := by
+    apply decide_eq_true; show size < 4; exact hs
+  unfold attributes.ParseEfivars
+  rw [hd]
+  exact ⟨_, rfl⟩
 
 /-- the attribute word as the model reads it (`rd32` of the first four bytes) -/
 theorem C11g_parse_attrs (f : List UInt8) (size : Int) (hs : 4 ≤ size) (hf : size.toNat ≤ f.length) :
@@ -93,11 +110,13 @@ theorem C11g_parse_twins (t : fswrapper.FSWrapper) (f : List UInt8) (size : Int)
 
 example : attributes.ParseEfivars [7, 0, 0, 0, 1, 2, 3, 9] 7 = ([9], 7, [1, 2, 3], none) := by decide +kernel
 example : (attributes.ParseEfivars [7, 0, 0, 0, 1, 2] 7).2.2.2.isSome = true := by decide +kernel
+example : (attributes.ParseEfivars [7, 0, 0, 0, 1, 2] 3).2.2.2.isSome = true := by decide +kernel
 
 end GoUefi.C11
 
 #print axioms GoUefi.C11.C11g_parse_ok
 #print axioms GoUefi.C11.C11g_parse_short
+#print axioms GoUefi.C11.C11g_parse_small
 #print axioms GoUefi.C11.C11g_parse_attrs
 #print axioms GoUefi.C11.C11g_parse_value_length
 #print axioms GoUefi.C11.C11g_parse_twins
